@@ -6,3 +6,6 @@ from rules import build
 files, ctrl, info = build.build(os.environ.get('VERIF_TIER', 'quick'), verbose=False)
 F = Facts(files)
 C = Facts(ctrl)
+from rules.effects import Effects
+from rules import core as _core
+CTX = _core.Ctx('probe', 'quick', F, C, Effects(F), info)
